@@ -41,7 +41,7 @@ class TopicState(object):
 
 
 class KafkaTransportSink(MuxSocketTransportSink):
-  CLIENT_ID = 'scales'
+  CLIENT_ID = b'scales'
 
   def _CheckInitialConnection(self):
     pass
